@@ -14,7 +14,13 @@ RULE = ('case = (container tree over list/tuple/set/frozenset/dict whose leaves 
         'the placeholder of its own type ([...], (...), {...}, T(...)) iff k >= d, otherwise node type and arity agree '
         'and the walk recurses; for d > height the text is identical to depth=None. Tolerances (statement silent / '
         'documented): str/bytes dict keys exactly at the cut may print in full; empty list/tuple/set beyond the cut may '
-        'print in full. non-trivial = 1 <= d <= height; distinct by case hash')
+        'print in full. Generic cases: trees that also hold pretty_call objects (one / several positional and keyword '
+        'arguments), deque, OrderedDict, defaultdict, Counter, ChainMap, mappingproxy, namedtuple and SimpleNamespace are '
+        'judged by a walk driven by the two syntax trees with a level band per node (a list / dict / tuple literal passed '
+        'as a positional argument may or may not count as a container of its own): full form required when the highest '
+        'count is < d, placeholder of the node\'s own type required when the lowest count is >= d, otherwise same node '
+        'type / callee / keywords / arity and recurse; identical text for d above the highest count. '
+        'non-trivial = 1 <= d <= height; distinct by case hash')
 ASSUMPTIONS = ['bool/None/Ellipsis leaves are not generated (not uniquely identifiable, no placeholder form)',
                'ast.parse of CPython defines the syntax tree']
 BUDGET = {'quick': {'random': 6000, 'shards': 16}, 'thorough': {'random': 300000, 'shards': 16}}
@@ -103,11 +109,38 @@ def strategy(tier):
         return rec(tree, True)
     plain = st.recursive(leaf, ext, max_leaves=25).map(relabel)
     tree = st.one_of(plain, plain, st.tuples(plain, st.sets(st.integers(0, 6), min_size=1, max_size=3).map(sorted)).map(decorate))
-    return st.fixed_dictionaries({
+    # generic cases: containers reached through call-style printers (pretty_call objects, deque, OrderedDict, defaultdict,
+    # Counter, ChainMap, mappingproxy, namedtuple, SimpleNamespace); judged by the syntax-tree walk with a level band
+    from .. import stdvals
+    S = values.strategies()
+    gleaf = st.one_of(S['r_int'], S['r_str'])
+    ghash = st.recursive(gleaf, S['hashable_ext'], max_leaves=5)
+
+    def gext(ch):
+        return st.one_of(
+            st.lists(ch, max_size=3).map(lambda xs: ['list', xs]),
+            st.lists(ch, max_size=3).map(lambda xs: ['tuple', xs]),
+            st.lists(st.tuples(ghash, ch).map(list), max_size=3).map(lambda kv: ['dict', kv]),
+            st.tuples(st.sampled_from(['box', 'alt']), st.lists(ch, max_size=3),
+                      st.lists(st.tuples(st.sampled_from(['a', 'b']), ch).map(list), max_size=2, unique_by=lambda p: p[0])).map(
+                lambda p: ['call', p[0], p[1], p[2]]),
+        )
+    small = st.recursive(gleaf, gext, max_leaves=8)
+    parts = stdvals.std_strategy(S, payload=small, hashable=ghash)
+    std_tree = st.one_of(*[parts[k] for k in ('odict', 'ddict', 'deque', 'counter', 'chainmap', 'mproxy', 'ns', 'ntuple')])
+    gtree = st.one_of(std_tree, st.recursive(st.one_of(gleaf, std_tree), gext, max_leaves=10))
+    generic = st.fixed_dictionaries({
+        'v': gtree, 'd': st.one_of(st.none(), st.integers(0, 4), st.integers(0, 9)), 'width': st.sampled_from([20, 79, 200]),
+        'generic': st.just(True)})
+    return st.one_of(generic, st.fixed_dictionaries({
         'v': tree,
         'd': st.one_of(st.none(), st.integers(0, 3), st.integers(0, 8)),
         'width': st.sampled_from([20, 200]),
-    })
+    }), st.fixed_dictionaries({
+        'v': tree,
+        'd': st.one_of(st.none(), st.integers(0, 3), st.integers(0, 8)),
+        'width': st.sampled_from([20, 200]),
+    }))
 
 
 class Bad(Exception):
@@ -173,7 +206,153 @@ def walk(v, full, cut, k, d, ctxkey=False):
             raise Bad('leaf %r differs: %s' % (v, ast.dump(cut)[:100]))
 
 
+_ELL = "Constant(value=Ellipsis)"
+
+
+def _is_ell(n):
+    return isinstance(n, ast.Constant) and n.value is Ellipsis
+
+
+def placeholder_for(full):
+    """the AST dump of the ellipsis placeholder of the expression `full`, or None when it has none"""
+    if isinstance(full, ast.List):
+        src = '[...]'
+    elif isinstance(full, ast.Tuple):
+        src = '(...)'
+    elif isinstance(full, ast.Dict):
+        src = '{...}'
+    elif isinstance(full, ast.Set):
+        src = 'set(...)'
+    elif isinstance(full, ast.Call):
+        return ast.dump(ast.Call(func=full.func, args=[ast.Constant(value=Ellipsis)], keywords=[]))
+    elif isinstance(full, ast.Constant) and type(full.value) in (int, float, str, bytes):
+        src = type(full.value).__name__ + '(...)'
+    elif isinstance(full, ast.UnaryOp) and isinstance(full.operand, ast.Constant) and type(full.operand.value) in (int, float):
+        src = type(full.operand.value).__name__ + '(...)'
+    else:
+        return None
+    return ast.dump(ast.parse(src, mode='eval').body)
+
+
+def looks_like_placeholder(n):
+    if _is_ell(n):
+        return True
+    if isinstance(n, (ast.List, ast.Set)) and len(n.elts) == 1 and _is_ell(n.elts[0]):
+        return True
+    return isinstance(n, ast.Call) and len(n.args) == 1 and _is_ell(n.args[0]) and not n.keywords
+
+
+def children(n, a, b):
+    """(child node, lowest level, highest level, is_dict_key) for the sub-expressions of a container-like node at
+    level band (a, b).  A list / dict / tuple literal passed as a positional argument of a call may or may not count as a
+    container of its own (a hugged sole argument does not consume a level, an argument among several does)."""
+    if isinstance(n, (ast.List, ast.Tuple, ast.Set)):
+        return [(e, a + 1, b + 1, False) for e in n.elts]
+    if isinstance(n, ast.Dict):
+        out = []
+        for k, v in zip(n.keys, n.values):
+            out.append((k, a + 1, b + 1, True))
+            out.append((v, a + 1, b + 1, False))
+        return out
+    if isinstance(n, ast.Call):
+        out = []
+        for e in n.args:
+            if isinstance(e, (ast.List, ast.Dict, ast.Tuple)):
+                out.append((e, a, b + 1, False))
+            else:
+                out.append((e, a + 1, b + 1, False))
+        for kw in n.keywords:
+            out.append((kw.value, a + 1, b + 1, False))
+        return out
+    return []
+
+
+def ast_height(n, b=0):
+    return max([b] + [ast_height(c, cb) for c, _, cb, _ in children(n, b, b)])
+
+
+def walk_generic(full, cut, a, b, d, iskey=False):
+    fd, cd = ast.dump(full), ast.dump(cut)
+    if fd == cd and not children(full, a, b):
+        if a >= d and not looks_like_placeholder(cut) and placeholder_for(full) is not None:
+            # a leaf printed in full although every way of counting puts it at or below the cut
+            if iskey and isinstance(full, ast.Constant) and type(full.value) in (str, bytes) and a <= d <= b + 1:
+                return
+            if isinstance(full, (ast.List, ast.Tuple, ast.Set, ast.Dict)) or (isinstance(full, ast.Call) and not full.args and not full.keywords):
+                return              # empty containers may print in full
+            raise Bad('%s is inside at least %d containers (depth %d) but is printed in full' % (fd[:80], a, d))
+        return
+    ph = placeholder_for(full)
+    if cd == ph and fd != ph:
+        if b >= d:
+            return
+        # [(...)] / f((...)) also read as a one-element list / call holding the placeholder of a tuple
+        kids = children(full, a, b)
+        if not (len(kids) == 1 and isinstance(kids[0][0], ast.Tuple) and type(full) is type(cut)):
+            raise Bad('%s is inside at most %d containers (depth %d) but was replaced by a placeholder' % (fd[:80], b, d))
+    elif looks_like_placeholder(cut) and fd != cd:
+        raise Bad('placeholder of the wrong type: %s for %s' % (cd[:80], fd[:80]))
+    if a >= d:
+        if iskey and a <= d <= b + 1:
+            pass
+        elif not children(full, a, b):
+            pass
+        else:
+            raise Bad('%s is inside at least %d containers (depth %d) but is not a placeholder' % (fd[:80], a, d))
+    if type(full) is not type(cut):
+        raise Bad('node type differs: %s vs %s' % (fd[:80], cd[:80]))
+    if isinstance(full, ast.Call):
+        if ast.dump(full.func) != ast.dump(cut.func) or [k.arg for k in full.keywords] != [k.arg for k in cut.keywords]:
+            raise Bad('call differs: %s vs %s' % (fd[:80], cd[:80]))
+    fc, cc = children(full, a, b), children(cut, a, b)
+    if len(fc) != len(cc):
+        raise Bad('arity differs: %s vs %s' % (fd[:80], cd[:80]))
+    if not fc and fd != cd:
+        raise Bad('leaf differs: %s vs %s' % (fd[:80], cd[:80]))
+    for (f, ca, cb, key), (c, _, _, _) in zip(fc, cc):
+        walk_generic(f, c, ca, cb, d, key)
+
+
+def oracle_generic(case):
+    from .. import stdvals, vtypes
+    v = values.build(case['v'])
+    d = case['d']
+    w = case['width']
+    base = values.pp(v, width=w, ribbon_width=w)
+    if base.exc is not None or base.fallback_warnings():
+        return core.viol('unlimited-print-failed', repr(base.exc or base.fallback_warnings()[0])[:300])
+    p = values.pp(v, width=w, ribbon_width=w, depth=d)
+    if p.exc is not None:
+        return core.viol('pformat-raised', repr(p.exc))
+    if p.fallback_warnings():
+        return core.viol('printer-failed', p.fallback_warnings()[0][:300])
+    try:
+        full = ast.parse('(' + base.text + '\n)', mode='eval').body
+        cut = ast.parse('(' + p.text + '\n)', mode='eval').body
+    except SyntaxError as e:
+        return core.viol('not-an-expression', '%r\n%s' % (e, p.text[:400]))
+    h = ast_height(full)
+    if d is None or d > h:
+        if p.text != base.text:
+            return core.viol('deep-limit-changes-output', 'depth=%r height<=%d\n%s\nvs\n%s' % (d, h, p.text[:300], base.text[:300]))
+        return core.ok(False, ['generic', 'd>height' if d is not None else 'd=None'])
+    try:
+        walk_generic(full, cut, 0, 0, d)
+    except Bad as e:
+        return core.viol('wrong-cut', 'depth=%d: %s\n%s' % (d, e, p.text[:500]))
+    return core.ok(1 <= d <= h, ['generic', 'generic-cut' if p.text != base.text else 'generic-uncut'])
+
+
 def fixed_cases():
+    inner = ['list', [['int', 1], ['list', [['int', 2], ['list', [['int', 3]]]]]]]
+    for d in (0, 1, 2, 3, 4, 5, None):
+        yield {'v': ['std', 'deque', [inner, ['int', 7]], 9], 'd': d, 'width': 79, 'generic': True}
+        yield {'v': ['std', 'deque', [inner, ['int', 7]], None], 'd': d, 'width': 79, 'generic': True}
+        yield {'v': ['std', 'odict', [[['str', 'k'], inner]]], 'd': d, 'width': 79, 'generic': True}
+        yield {'v': ['std', 'ddict', 'list', [[['str', 'k'], inner]]], 'd': d, 'width': 79, 'generic': True}
+        yield {'v': ['std', 'ntuple', 'Point', [inner, ['int', 5]]], 'd': d, 'width': 79, 'generic': True}
+        yield {'v': ['call', 'box', [inner], []], 'd': d, 'width': 79, 'generic': True}
+        yield {'v': ['call', 'alt', [inner, ['int', 4]], [['a', inner]]], 'd': d, 'width': 79, 'generic': True}
     for d in (0, 1, 2, 3, None):        # special floats are floats: full above the cut, float(...) below
         yield {'v': ['list', [['float', 'inf'], ['list', [['float', 'nan'], ['float', '1.5']]], ['dict', [[['float', '-inf'], ['int', 1]]]]]], 'd': d, 'width': 200}
     deep = ['dict', [[['str', 's1'], ['cmt', 'a comment long enough to go above the value', ['list', [['int', 1], ['list', [['int', 2], ['list', [['int', 3]]]]]]]]]]]
@@ -183,6 +362,8 @@ def fixed_cases():
 
 
 def oracle(case):
+    if case.get('generic'):
+        return oracle_generic(case)
     v = values.build(case['v'])
     d = case['d']
     w = case['width']
